@@ -1595,4 +1595,4 @@ LEVEL_TEXT = ("Kernel-checked for every operation history over the heap model: r
               "at the view's indices (negative indices normalised, out of range rejected); a write through a tree node changes exactly that cell of the owner; the "
               "arrays of a copy or a detached object are freshly allocated and no later operation on one side changes an array of the other; a tree's segments are "
               "its (parent, child) pairs and a branch's segments its consecutive node pairs.")
-LEVEL_NOTE = "Trusted: Lean kernel; heap model (where numpy aliases / copies) tied by correspondence on histories and np.shares_memory; deepcopy."
+LEVEL_NOTE = "Trusted: Lean kernel; heap model (where numpy aliases / copies) tied by correspondence on histories and np.shares_memory, and the indexing / window / iteration / detach logic of Node, Path, Branch, Compartment, Tree translated from the source and proved against it; deepcopy."
